@@ -707,6 +707,165 @@ def run_handshake(ctx, real):
                     'expected': repr(m), 'observed': repr(obs)})
 
 
+# ---------------------------------------------------------------------------
+# client side: message.send / message.receive / Connector.__do on a fake socket
+# ---------------------------------------------------------------------------
+CLIENT_ALIAS = {'01': {'kind': 'msg', 'type': 'register', 'rev': 'r'},
+                '0203': {'kind': 'msg', 'type': 'status', 'rev': 'q'},
+                '04': {'kind': 'obj', 'value': 7}}
+
+
+def all_lens(n):
+    for mask in range(2 ** (n - 1)):
+        lens, last = [], 0
+        for i in range(n - 1):
+            if mask >> i & 1:
+                lens.append(i + 1 - last)
+                last = i + 1
+        lens.append(n - last)
+        yield lens
+
+
+def cut(stream, lens):
+    out, pos = [], 0
+    for n in lens:
+        out.append(stream[pos:pos + n])
+        pos += n
+    return out
+
+
+def client_cases(ctx, real):
+    rng = random.Random('%s:C14:client' % ctx.seed)
+    al = sorted(bytes.fromhex(h) for h in CLIENT_ALIAS)
+    cases = []
+
+    def add(fn, ms, rest, k, lens, known, **kw):
+        stream = b''.join(fr(m) for m in ms) + rest
+        cases.append(dict(kw, fn=fn, k=k, ms=ms, rest=rest, stream=stream, lens=lens, known=known,
+                          chunks=cut(stream, lens)))
+
+    # every cut of short streams
+    shorts = [([b'\x01', b'\x02\x03'], b'', 2), ([b'\x01'], b'\x00\x00\x09', 1),
+              ([b'\x04', b'\x01'], b'', 1), ([b'\x01'], b'', 2), ([b''], b'\x05', 1)]
+    if not ctx.quick:
+        shorts += [([b'\x01', b'\x02\x03', b'\x04'], b'\x00', 3), ([b'\x02\x03'], b'\x00\x00\x00', 2)]
+    for ms, rest, k in shorts:
+        n = len(b''.join(fr(m) for m in ms) + rest)
+        for lens in all_lens(n):
+            add('receive', ms, rest, k, lens, al + [b''])
+    # truncated streams: the peer went away in the middle of a message
+    for t in range(1, 7):
+        s = (fr(b'\x01') + fr(b'\x02\x03'))[:-t]
+        for lens in ([len(s)], [1] * len(s), [3, len(s) - 3]):
+            cases.append({'fn': 'receive', 'k': 2, 'ms': None, 'rest': b'', 'stream': s, 'lens': lens,
+                          'known': al, 'chunks': cut(s, lens)})
+    # real payloads, random cuts
+    rp = [p for p, _ in real['farm']]
+    stream_n = len(b''.join(fr(m) for m in rp)) + 3
+    for _ in range(ctx.n(60, 1200)):
+        cuts = sorted(set(rng.randrange(1, stream_n) for _ in range(rng.choice([1, 2, 4, 9, 30]))))
+        lens = [j - i for i, j in zip([0] + cuts, cuts + [stream_n])]
+        add('receive', rp, b'\x00\x00\x01', rng.choice([len(rp), len(rp), 1, 2]), lens, rp)
+    add('receive', rp, b'\x00\x00\x01', len(rp), [1] * stream_n, rp)
+    # Connector.__do: request out, one response in (then close)
+    resp = [p for p, _ in real['db']]
+    for i, r in enumerate(resp[: ctx.n(2, 4)]):
+        n = len(fr(r)) + 2
+        for _ in range(ctx.n(15, 200)):
+            cuts = sorted(set(rng.randrange(1, n) for _ in range(rng.choice([0, 1, 2, 5]))))
+            lens = [j - i2 for i2, j in zip([0] + cuts, cuts + [n])]
+            add('do', [r], b'\x07\x07', 1, lens, resp, spec=REAL['db'][3])
+    for lens in all_lens(len(fr(b'\x04')) + 1):
+        add('do', [b'\x04'], b'\x09', 1, lens, al, spec=REAL['db'][2])
+    # send
+    for spec in REAL['farm']:
+        cases.append({'fn': 'send', 'spec': spec})
+    return cases
+
+
+def run_client(ctx, real):
+    cases = client_cases(ctx, real)
+    pl = []
+    for c in cases:
+        d = {'fn': c['fn']}
+        if c['fn'] == 'send':
+            d['spec'] = c['spec']
+        else:
+            d.update(k=c['k'], chunks=[x.hex() for x in c['chunks']])
+            if 'spec' in c:
+                d['spec'] = c['spec']
+        pl.append(d)
+    impl = ctx.harness('drive_client.py', {'alias': CLIENT_ALIAS, 'cases': pl})['cases']
+    ctx.log('client: implementation ran %d socket cases' % len(cases))
+    exprs, idx = [], []
+    obs = []
+    for c, o in zip(cases, impl):
+        rep = {'source': 'oracle', 'theorem': 'C14_client_receive', 'client_case':
+               dict(pl[len(obs)], alias=CLIENT_ALIAS), 'observed': o}
+        if c['fn'] == 'send':
+            sent = b''.join(bytes.fromhex(x) for x in o['sent'])
+            p = bytes.fromhex(o['dumped'][0]) if o['dumped'] else b''
+            if o['exc'] or len(o['sent']) != 1 or sent != fr(p):
+                ctx.violation('client-send', {'fn': 'send'}, 'message.send does not write header+payload '
+                              'in one piece: %s' % o, rep)
+            exprs.append('send %s' % zl(p))
+            idx.append(('send', list(sent)))
+            obs.append(None)
+            continue
+        known = c['known']
+        got = [bytes.fromhex(x) for x in o['got']]
+        left = [list(bytes.fromhex(x)) for x in o['left']]
+        if o['exc'] == 'Spin':
+            canon = ([[-9]], [])
+        elif o['exc'] and o['exc'] not in ('EOFError', 'UnpicklingError'):
+            canon = ([[-8, o['exc']]], [])
+        else:
+            # loads() refusing a payload is pickle's business (an oracle outside
+            # Client.v): the framing is compared up to and including that payload
+            canon = ([[0, known.index(g)] if g in known else [0, -1] + list(g) for g in got], left)
+        # ---- oracle on the implementation
+        if c['ms'] is not None and c['k'] <= len(c['ms']) and all(m in known and m != b'' for m in c['ms'][:c['k']]):
+            want = c['ms'][:c['k']]
+            rest = b''.join(fr(m) for m in c['ms'][c['k']:]) + c['rest']
+            if o['exc'] or got != want or b''.join(bytes(x) for x in left) != rest:
+                ctx.violation('client-receive', {'fn': c['fn']},
+                              '%s on chunks %s read %s and left %s; expected %s and %s'
+                              % (c['fn'], c['lens'], [g.hex() for g in got], o['left'],
+                                 [w.hex() for w in want], rest.hex()), rep)
+            if c['fn'] == 'do' and (not o['closed'] or len(o['sent']) != 1
+                                    or bytes.fromhex(o['sent'][0]) != fr(bytes.fromhex(o['dumped'][0]))):
+                ctx.violation('client-do', {'fn': 'do'}, 'Connector.__do request/close wrong: %s' % o, rep)
+        obs.append(canon)
+        exprs.append('obs_recv %s (receive_n %d%%nat %s)'
+                     % (zll(known), len(got) if o['exc'] in ('EOFError', 'UnpicklingError') else c['k'],
+                        zll(c['chunks']) if c['chunks'] else '(@nil (list Z))'))
+        idx.append(('recv', canon))
+    res = ctx.coq_eval(['DV.Model.Frame', 'DV.Model.Client'], exprs, chunk=150)
+    mism = None
+    keys = []
+    for c, (kind, want), m in zip(cases, idx, res):
+        if kind == 'send':
+            ok = list(m) == want
+        else:
+            evs, left = m
+            ok = ([list(e) for e in evs], [list(x) for x in left]) == want
+        if not ok and mism is None:
+            mism = (c, want, m)
+        if kind == 'recv' and len(c['lens']) > 1:
+            keys.append(('client', c['fn'], c['stream'].hex(), c['lens'], c['k']))
+    ctx.count(evaluations=len(cases), nontrivial_keys=keys)
+    ctx.note('client_cases', {k: sum(1 for c in cases if c['fn'] == k) for k in ('receive', 'do', 'send')})
+    ctx.note('client_eof_observation',
+             'message.receive / Connector.__do loop on s.recv() returning b"" (peer closed in '
+             'mid-message): %d truncated cases spin for ever in the real code (driver raises after 3 '
+             'empty reads); model: None' % sum(1 for o in impl if o['exc'] == 'Spin'))
+    if mism and ctx.nviol == 0:
+        c, want, m = mism
+        ctx.broken('correspondence Client.v vs message.%s' % c['fn'],
+                   'case %s\nimplementation: %s\nmodel: %s' % ({k: v for k, v in c.items() if k != 'known'}, want, m),
+                   {'source': 'correspondence', 'expected': repr(m), 'observed': repr(want)})
+
+
 def replay(ctx):
     """re-execute the case of a replay file against the real code: prints the
     trace of every listed chunking and re-evaluates the chunking oracle on them"""
@@ -776,6 +935,7 @@ def run(ctx):
     real = real_payloads(ctx)
     run_framing(ctx, real)
     run_handshake(ctx, real)
+    run_client(ctx, real)
     if not r['ok']:
         ctx.broken('theorem/file %s' % r['failing'], r['log'],
                    {'source': 'proof', 'theorem': r['failing']})
